@@ -38,14 +38,19 @@ def make_pools(mk, spec) -> Dict[str, List[Any]]:
         pools[p] = S.make_objects(mk, cls, p.lower() + "_", spec["pools"][p], extra=extra)
     for src, dst in refs.items():
         for i, o in enumerate(pools[src]):
-            o.ref = mk.ref("%s_%d.ref" % (src.lower(), i), pools[dst])
+            if pools[dst]:
+                o.ref = mk.ref("%s_%d.ref" % (src.lower(), i), pools[dst])
+    # instances that exist in the registry but belong to NO domain of the query: a variable over a supplied domain must
+    # never range over them (not even when its domain is empty)
+    for cname, k in spec.get("outside", {}).items():
+        S.make_objects(mk, CLASSES[cname], "out_" + cname.lower(), k, extra=extra)
     return pools
 
 
 def declare_vars(spec, pools):
     V = {}
     for v, p in spec["vars"].items():
-        cls = type(pools[p][0]) if pools[p] else Item
+        cls = type(pools[p][0]) if pools[p] else CLASSES[spec.get("classes", {}).get(p, "Item" if p == "X" else "Other")]
         V[v] = let(cls, domain=pools[p])
     return V
 
